@@ -1,6 +1,6 @@
 (* C42: proofs about the wallet encryption model (model/WalletCrypt.v). *)
 From Coq Require Import ZArith NArith List Bool Lia.
-From BV Require Import lib.Ints model.CryptoBase model.CryptoSHA512 model.CryptoAES model.WalletCrypt.
+From BV Require Import lib.Ints model.CryptoBase model.CryptoSHA512 model.CryptoAES proofs.CryptoAESLemmas model.WalletCrypt.
 Import ListNotations.
 
 Lemma bytes_eqb_refl a : bytes_eqb a a = true.
@@ -209,37 +209,54 @@ Section Cipher.
     forall id, committed (w_db st) (KPlain id) <> None -> In id (map s_id (w_spk st)).
 
   (* phase 1 ends early: nothing on disk has changed (whatever fails, whatever `chk`) *)
+  Lemma spkm_encrypt_txn chk mk s d o s' d' o' :
+    in_txn d -> spkm_encrypt chk c mk s d o = Some (s', d', o') -> in_txn d' /\ committed d' = committed d.
+  Proof.
+    intros T H. unfold spkm_encrypt in H. destruct (s_crypt s); [discriminate|].
+    destruct (s_plain s) as [sec|]; [|inversion H; subst; split; [exact T|reflexivity]].
+    destruct (pop o) as [w oa]. destruct w.
+    - destruct (pop oa) as [e ob]. destruct e.
+      + inversion H; subst. destruct (in_txn_write d (KCrypt (s_id s)) (Some (VCrypt (c_enc c mk (c_iv c (s_pub s)) sec))) T) as [Ta Ca].
+        destruct (in_txn_write _ (KPlain (s_id s)) None Ta) as [Tb Cb]. split; [exact Tb|rewrite Cb, Ca; reflexivity].
+      + destruct chk; [discriminate|]. inversion H; subst. apply in_txn_write; exact T.
+    - destruct chk; [discriminate|]. inversion H; subst. split; [exact T|reflexivity].
+  Qed.
+
+  Lemma encrypt_all_txn chk mk l : forall d o l' d' o',
+    in_txn d -> encrypt_all chk c mk l d o = Some (l', d', o') -> in_txn d' /\ committed d' = committed d.
+  Proof.
+    induction l as [|s r IH]; intros d o l' d' o' T H; cbn [encrypt_all] in H.
+    - inversion H; subst. split; [exact T|reflexivity].
+    - destruct (spkm_encrypt chk c mk s d o) as [[[s1 d1] o1]|] eqn:E; [|discriminate].
+      destruct (encrypt_all chk c mk r d1 o1) as [[[r1 d2] o2]|] eqn:R; [|discriminate]. inversion H; subst.
+      destruct (spkm_encrypt_txn _ _ _ _ _ _ _ _ T E) as [T1 C1]. destruct (IH _ _ _ _ _ T1 R) as [T2 C2].
+      split; [exact T2|rewrite C2, C1; reflexivity].
+  Qed.
+
   Lemma phase1_early chk st pass mk salt o st' r :
-    plain_wallet st -> encrypt_phase1 chk c st pass mk salt o = inl (st', r) ->
+    pending (w_db st) = None -> encrypt_phase1 chk c st pass mk salt o = inl (st', r) ->
     committed (w_db st') = committed (w_db st) /\ pending (w_db st') = None.
   Proof.
-    intros (Hm & Hpl & Hnd & Hpe & _) H. unfold encrypt_phase1 in H.
+    intros Hpe H. unfold encrypt_phase1 in H.
     destruct (has_enc st); [inversion H; subst; split; [reflexivity|exact Hpe]|].
     destruct (pop o) as [b o1]. destruct b; cbn [negb] in H; [|inversion H; subst; cbn; split; [reflexivity|exact Hpe]].
     destruct (pop o1) as [wm o2].
-    destruct (negb wm && chk); [inversion H; subst; cbn; split; reflexivity|].
-    set (d1 := if wm then _ else _) in H.
-    assert (T1 : in_txn d1 /\ committed d1 = committed (w_db st)).
-    { subst d1. destruct wm; [apply in_txn_write; eexists; reflexivity|split; [eexists; reflexivity|reflexivity]]. }
-    destruct T1 as [T1 C1].
-    destruct (encrypt_all chk c mk (w_spk st) d1 o2) as [[[spk' d2] o3]|] eqn:E.
-    - destruct (pop o3) as [cm o4]. destruct cm; cbn [negb] in H; [discriminate|]. inversion H; subst. cbn. split; [|reflexivity].
-      assert (C2 : committed d2 = committed d1).
-      { clear H. revert d1 o2 spk' d2 o3 T1 C1 E. generalize (w_spk st) as l. induction l as [|s r0 IH]; intros d1 o2 spk' d2 o3 T1 C1 E; cbn in E.
-        - inversion E; reflexivity.
-        - destruct (spkm_encrypt chk c mk s d1 o2) as [[[s1 dd] oo]|] eqn:SE; [|discriminate].
-          destruct (encrypt_all chk c mk r0 dd oo) as [[[r1 d3] o5]|] eqn:R; [|discriminate]. inversion E; subst.
-          assert (X : in_txn dd /\ committed dd = committed d1).
-          { unfold spkm_encrypt in SE. destruct (s_crypt s); [discriminate|]. destruct (s_plain s); [|inversion SE; subst; split; [exact T1|reflexivity]].
-            destruct (pop o2) as [w oa]. destruct w.
-            - destruct (pop oa) as [e ob]. destruct e.
-              + inversion SE; subst. destruct (in_txn_write d1 (KCrypt (s_id s)) (Some (VCrypt (c_enc c mk (c_iv c (s_pub s)) b))) T1) as [Ta Ca].
-                destruct (in_txn_write _ (KPlain (s_id s)) None Ta) as [Tb Cb]. split; [exact Tb|rewrite Cb, Ca; reflexivity].
-              + destruct chk; [discriminate|]. inversion SE; subst. apply in_txn_write; exact T1.
-            - destruct chk; [discriminate|]. inversion SE; subst. split; [exact T1|reflexivity]. }
-          destruct X as [Tx Cx]. rewrite (IH _ _ _ _ _ Tx eq_refl R). exact Cx. }
-      rewrite C2. exact C1.
-    - inversion H; subst. cbn. split; [exact C1|reflexivity].
+    assert (T0 : in_txn (db_begin (w_db st))) by (eexists; reflexivity).
+    destruct wm; cbn [negb andb] in H.
+    - destruct (in_txn_write (db_begin (w_db st)) (KMaster (S (w_maxid st)))
+                  (Some (VMaster (fst (encrypt_master c pass salt mk)) (snd (encrypt_master c pass salt mk)))) T0) as [T1 C1].
+      destruct (encrypt_all chk c mk (w_spk st) _ o2) as [[[spk' d2] o3]|] eqn:E.
+      + destruct (encrypt_all_txn _ _ _ _ _ _ _ _ T1 E) as [T2 C2].
+        destruct (pop o3) as [cm o4]. destruct cm; cbn [negb] in H; [discriminate|]. inversion H; subst. cbn. split; [|reflexivity].
+        rewrite C2, C1. reflexivity.
+      + inversion H; subst. cbn. split; [exact C1|reflexivity].
+    - destruct chk; cbn in H.
+      + inversion H; subst. cbn. split; reflexivity.
+      + destruct (encrypt_all false c mk (w_spk st) (db_begin (w_db st)) o2) as [[[spk' d2] o3]|] eqn:E.
+        * destruct (encrypt_all_txn _ _ _ _ _ _ _ _ T0 E) as [T2 C2].
+          destruct (pop o3) as [cm o4]. destruct cm; cbn [negb] in H; [discriminate|]. inversion H; subst. cbn. split; [|reflexivity].
+          rewrite C2. reflexivity.
+        * inversion H; subst. cbn. split; reflexivity.
   Qed.
 
   (* phase 1 reaches the commit: with checked writes (any failures) or without failures, the database then holds the
@@ -278,9 +295,356 @@ Section Cipher.
       - rewrite A.
         + unfold db_set. cbn [rkey_eqb]. destruct (committed (w_db st) (KPlain id)) eqn:X; [|reflexivity].
           exfalso. apply Hni. apply Hsync. congruence.
-        + intros id' Hin'. split; intros Heq; inversion Heq; subst; [|contradiction]. }
+        + intros id' Hin'. split; intros Heq; [discriminate|inversion Heq as [Hid]; rewrite Hid in Hni; contradiction]. }
     split.
     { rewrite A; [unfold db_set; rewrite rkey_eqb_refl, Hsalt; reflexivity|]. intros id' _. split; discriminate. }
-    split; [reflexivity|]. split; [exact F|]. split; [exact M|]. rewrite Hm. repeat split; reflexivity.
+    split; [reflexivity|]. split; [exact F|]. split; [exact M|]. repeat split; reflexivity.
+  Qed.
+
+  (* the manager after Encrypt, in terms of the manager before: same descriptor, same public key, its own secret encrypted *)
+  Definition enc_of (mk : bytes) (s s' : spkm) : Prop :=
+    s_id s' = s_id s /\ s_pub s' = s_pub s /\ s_plain s' = None /\
+    exists sec, s_plain s = Some sec /\ s_crypt s' = Some (c_enc c mk (c_iv c (s_pub s)) sec).
+
+  Lemma spkm_encrypt_rel chk mk s d o s' d' o' :
+    plain_ok s -> spkm_encrypt chk c mk s d o = Some (s', d', o') -> enc_of mk s s'.
+  Proof.
+    intros (Hc & sec & Hp & Hl & Hpub) H. unfold spkm_encrypt in H. rewrite Hc, Hp in H.
+    destruct (pop o) as [w o1]. destruct w.
+    - destruct (pop o1) as [e o2]. destruct e; [|destruct chk; [discriminate|]]; inversion H; subst; repeat split; exists sec; split; auto.
+    - destruct chk; [discriminate|]. inversion H; subst; repeat split; exists sec; split; auto.
+  Qed.
+
+  Lemma encrypt_all_rel chk mk l : forall d o l' d' o',
+    Forall plain_ok l -> encrypt_all chk c mk l d o = Some (l', d', o') -> Forall2 (enc_of mk) l l'.
+  Proof.
+    induction l as [|s r IH]; intros d o l' d' o' Hpl H; cbn [encrypt_all] in H.
+    - inversion H; subst. constructor.
+    - inversion Hpl as [|x y Hs Hr]; subst.
+      destruct (spkm_encrypt chk c mk s d o) as [[[s1 d1] o1]|] eqn:E; [|discriminate].
+      destruct (encrypt_all chk c mk r d1 o1) as [[[r1 d2] o2]|] eqn:R; [|discriminate]. inversion H; subst.
+      constructor; [eapply spkm_encrypt_rel; eassumption|eapply IH; eassumption].
+  Qed.
+
+  Lemma phase1_rel chk st pass mk salt o st2 :
+    Forall plain_ok (w_spk st) -> encrypt_phase1 chk c st pass mk salt o = inr st2 -> Forall2 (enc_of mk) (w_spk st) (w_spk st2).
+  Proof.
+    intros Hpl H. unfold encrypt_phase1 in H.
+    destruct (has_enc st); [discriminate|]. destruct (pop o) as [b o1]. destruct b; cbn [negb] in H; [|discriminate].
+    destruct (pop o1) as [wm o2]. destruct (negb wm && chk); [discriminate|].
+    match type of H with context [encrypt_all chk c mk (w_spk st) ?d o2] => destruct (encrypt_all chk c mk (w_spk st) d o2) as [[[spk' d2] o3]|] eqn:E end; [|discriminate].
+    destruct (pop o3) as [cm o4]. destruct cm; cbn [negb] in H; [|discriminate]. inversion H; subst. cbn.
+    eapply encrypt_all_rel; eassumption.
+  Qed.
+
+  Definition no_plain (p : db) : Prop := forall id, p (KPlain id) = None.
+
+  Lemma setup_new_props mk news : forall d l d',
+    Forall (fun x => length (snd x) = 32) news -> in_txn d ->
+    setup_new c mk news d = (l, d') ->
+    Forall (enc_under mk) l /\ in_txn d' /\ committed d' = committed d /\
+    forall p p', pending d = Some p -> pending d' = Some p' ->
+      (no_plain p -> no_plain p') /\ (forall i, p' (KMaster i) = p (KMaster i)).
+  Proof.
+    induction news as [|[id sec] r IH]; intros d l d' Hlen T H; cbn [setup_new] in H.
+    - inversion H; subst. split; [constructor|]. split; [exact T|]. split; [reflexivity|].
+      intros p p' E1 E2. rewrite E1 in E2. inversion E2; subst. split; auto.
+    - inversion Hlen as [|x y Hx Hr]; subst. cbn in Hx.
+      set (pub := c_pub c sec) in *. set (ct := c_enc c mk (c_iv c pub) sec) in *.
+      destruct (in_txn_write d (KCrypt id) (Some (VCrypt ct)) T) as [T1 C1].
+      destruct (in_txn_write _ (KPlain id) None T1) as [T2 C2].
+      destruct (in_txn_write _ (KDescRec id) (Some (VDescRec pub)) T2) as [T3 C3].
+      destruct (setup_new c mk r _) as [l0 d2] eqn:R. inversion H; subst; clear H.
+      destruct (IH _ _ _ Hr T3 R) as (F & T4 & C4 & P).
+      split; [constructor; [|exact F]|].
+      { split; [reflexivity|]. exists sec. cbn. repeat split; auto. }
+      split; [exact T4|]. split; [rewrite C4, C3, C2, C1; reflexivity|].
+      intros p p' E1 E2. destruct T3 as [p3 E3]. destruct (P _ _ E3 E2) as [N K].
+      assert (E3' : p3 = db_set (db_set (db_set p (KCrypt id) (Some (VCrypt ct))) (KPlain id) None) (KDescRec id) (Some (VDescRec pub))).
+      { unfold db_write in E3. rewrite E1 in E3. cbn in E3. inversion E3; reflexivity. }
+      split.
+      + intros Hn. apply N. subst p3. intros i. unfold db_set. cbn [rkey_eqb]. destruct (Nat.eqb i id); [reflexivity|apply Hn].
+      + intros i. rewrite K. subst p3. unfold db_set. cbn [rkey_eqb]. reflexivity.
+  Qed.
+
+  Lemma Forall2_in_l {A B} (R : A -> B -> Prop) l l' a : Forall2 R l l' -> In a l -> exists b, In b l' /\ R a b.
+  Proof.
+    induction 1 as [|x y r r' Hxy Hr IH]; intros Hin; [destruct Hin|].
+    destruct Hin as [->|Hin]; [exists y; split; [left; reflexivity|exact Hxy]|].
+    destruct (IH Hin) as (b & Hb & Rb). exists b. split; [right; exact Hb|exact Rb].
+  Qed.
+
+  (* EncryptWallet, the whole of it.  With the writes checked (this tree) for EVERY outcome of every database call, or
+     with unchecked writes when no call fails:
+     - result true: the committed database has the master key record and NO plaintext key record, no transaction is
+       open, the file has been rewritten, the wallet is locked, every manager holds its key encrypted under the master
+       key; and unlocking with the passphrase gives every original manager exactly its original secret back;
+     - any other result (false, or the process died): the committed database is what it was. *)
+  Lemma encrypt_wallet_spec chk st pass mk salt news o st' r :
+    plain_wallet st -> good chk o -> Forall (fun x => length (snd x) = 32) news ->
+    encrypt_wallet chk c st pass mk salt news o = (st', r) ->
+    match r with
+    | RTrue =>
+      no_plain (committed (w_db st')) /\ pending (w_db st') = None /\ w_dirty st' = false /\ is_locked st' = true /\
+      committed (w_db st') (KMaster (S (w_maxid st))) = Some (VMaster salt (snd (encrypt_master c pass salt mk))) /\
+      Forall (enc_under mk) (w_spk st') /\
+      exists st'', unlock_pass c st' pass = (st'', true) /\
+        forall s sec, In s (w_spk st) -> s_plain s = Some sec ->
+          exists s', In s' (w_spk st'') /\ s_id s' = s_id s /\ get_key c st'' s' = Some sec
+    | _ => committed (w_db st') = committed (w_db st) /\ pending (w_db st') = None
+    end.
+  Proof.
+    intros PW Hg Hlen H. pose proof PW as (Hm & Hpl & Hnd & Hpe & Hsync). unfold encrypt_wallet in H.
+    destruct (encrypt_phase1 chk c st pass mk salt o) as [[st1 r1]|st2] eqn:P1.
+    - inversion H; subst. destruct (phase1_early _ _ _ _ _ _ _ _ Hpe P1) as [A B].
+      destruct r; [|split; assumption|split; assumption].
+      (* an early exit never reports success *)
+      exfalso. unfold encrypt_phase1 in P1. destruct (has_enc st); [discriminate|]. destruct (pop o) as [b o1]. destruct b; cbn [negb] in P1; [|discriminate].
+      destruct (pop o1) as [wm o2]. destruct (negb wm && chk); [discriminate|].
+      match type of P1 with context [encrypt_all chk c mk (w_spk st) ?d o2] => destruct (encrypt_all chk c mk (w_spk st) d o2) as [[[spk' d2] o3]|] end; [|discriminate].
+      destruct (pop o3) as [cm o4]. destruct cm; discriminate.
+    - destruct (phase1_committed _ _ _ _ _ _ _ PW Hg P1) as (NP & MK & PE & F & M & WM & VM & DD).
+      pose proof (phase1_rel _ _ _ _ _ _ _ Hpl P1) as REL.
+      unfold encrypt_phase2 in H.
+      (* Unlock(pass) succeeds on the freshly encrypted wallet *)
+      assert (U : exists st3, unlock_pass c st2 pass = (st3, true) /\ w_spk st3 = w_spk st2 /\ w_mk st3 = w_mk st2 /\
+                                w_db st3 = w_db st2 /\ w_maxid st3 = w_maxid st2 /\ w_dead st3 = w_dead st2).
+      { assert (FB : forallb (check_decryption_key c mk) (w_spk st2) = true).
+        { apply forallb_forall. intros s Hin. apply enc_under_check. rewrite Forall_forall in F. apply F; exact Hin. }
+        unfold unlock_pass. rewrite WM. cbn [unlock_pass_loop]. rewrite decrypt_master_of_encrypted. unfold unlock_mk.
+        rewrite FB. eexists. split; [reflexivity|]. cbn. rewrite WM. repeat split; reflexivity. }
+      destruct U as (st3 & U & S3 & M3 & D3 & X3 & DD3).
+      rewrite U in H. rewrite S3, M3, D3, X3, DD3 in H.
+      destruct (setup_new c mk news (db_begin (w_db st2))) as [newl d3] eqn:SN.
+      assert (T0 : in_txn (db_begin (w_db st2))) by (eexists; reflexivity).
+      destruct (setup_new_props _ _ _ _ _ Hlen T0 SN) as (FN & T3 & C3 & P3).
+      inversion H; subst; clear H. cbn [w_db w_spk w_mk w_vm w_dirty w_maxid].
+      destruct T3 as [p3 E3]. unfold db_commit. rewrite E3. cbn [committed pending].
+      destruct (P3 _ _ eq_refl E3) as [N3 K3].
+      assert (FA : Forall (enc_under mk) (w_spk st2 ++ newl)) by (apply Forall_app; split; assumption).
+      split; [apply N3; exact NP|]. split; [reflexivity|]. split; [reflexivity|].
+      split; [unfold is_locked, has_enc; cbn; rewrite WM; reflexivity|].
+      split; [rewrite K3; exact MK|]. split; [exact FA|].
+      eexists. split.
+      + unfold unlock_pass. cbn [w_mk]. rewrite WM. cbn [unlock_pass_loop]. rewrite decrypt_master_of_encrypted. unfold unlock_mk. cbn [w_spk].
+        assert (FB : forallb (check_decryption_key c mk) (w_spk st2 ++ newl) = true).
+        { apply forallb_forall. intros s Hin. apply enc_under_check. rewrite Forall_forall in FA. apply FA; exact Hin. }
+        rewrite FB. reflexivity.
+      + intros s sec Hin Hsec. cbn [w_spk].
+        destruct (Forall2_in_l _ _ _ _ REL Hin) as (s' & Hin' & Hid & Hpub & Hpl' & sec' & Hs' & Hct).
+        rewrite Hsec in Hs'. inversion Hs'; subst sec'.
+        exists s'. split; [apply in_or_app; left; exact Hin'|]. split; [exact Hid|].
+        rewrite Forall_forall in Hpl. destruct (Hpl _ Hin) as (_ & sec2 & Hp2 & Hl2 & Hpub2). rewrite Hsec in Hp2. inversion Hp2; subst sec2.
+        apply (unlocked_get_key _ mk).
+        * unfold has_enc. cbn [w_mk]. rewrite ?WM. reflexivity.
+        * reflexivity.
+        * rewrite Hct, Hpub2. reflexivity.
+        * rewrite Hpub. exact Hpub2.
+        * exact Hl2.
+  Qed.
+
+  (* ChangeWalletPassphrase on an encrypted wallet whose single master key record opens with `old`; checked write
+     (this tree) for either outcome of the write, or unchecked write that succeeds *)
+  Lemma change_passphrase_spec chk st id rec mk old new o st' r :
+    w_mk st = [(id, rec)] -> decrypt_master c old rec = Some mk -> Forall (enc_under mk) (w_spk st) ->
+    pending (w_db st) = None -> (chk = true \/ fst (pop o) = true) ->
+    change_passphrase chk c st old new o = (st', r) ->
+    w_spk st' = w_spk st /\ pending (w_db st') = None /\
+    (forall k, (forall i, k <> KMaster i) -> committed (w_db st') k = committed (w_db st) k) /\
+    if r
+    then (* the record in memory and on disk is the master key under the new passphrase, and the new passphrase opens it *)
+         let rec' := encrypt_master c new (fst rec) mk in
+         w_mk st' = [(id, rec')] /\ committed (w_db st') (KMaster id) = Some (VMaster (fst rec') (snd rec')) /\
+         decrypt_master c new rec' = Some mk
+    else (* refused (the write failed): memory and disk still hold the old record *)
+         w_mk st' = w_mk st /\ committed (w_db st') = committed (w_db st).
+  Proof.
+    intros WM DM F PE G H. unfold change_passphrase in H.
+    assert (HE : has_enc st = true) by (unfold has_enc; rewrite WM; reflexivity).
+    unfold lock in H. rewrite HE in H. cbn [fst w_mk] in H. rewrite WM in H. cbn [chpass_loop] in H. rewrite DM in H.
+    assert (FB : forallb (check_decryption_key c mk) (w_spk st) = true).
+    { apply forallb_forall. intros s Hin. apply enc_under_check. rewrite Forall_forall in F. apply F; exact Hin. }
+    unfold unlock_mk in H. cbn [w_spk] in H. rewrite FB in H. cbn [w_db w_spk w_mk w_maxid w_vm w_dirty w_dead] in H.
+    destruct (pop o) as [w o1]. cbn [fst] in G. destruct w; cbn [negb andb] in H.
+    - inversion H; subst; clear H. cbn [w_spk w_db w_mk]. unfold db_write. rewrite PE. cbn [committed pending].
+      split; [reflexivity|]. split; [reflexivity|]. split.
+      { intros k Hk. unfold db_set. destruct (rkey_eqb k (KMaster id)) eqn:E; [|reflexivity].
+        destruct k; cbn in E; try discriminate. apply Nat.eqb_eq in E. subst. exfalso. eapply Hk. reflexivity. }
+      rewrite Nat.eqb_refl. split; [reflexivity|]. split.
+      + unfold db_set. rewrite rkey_eqb_refl. reflexivity.
+      + apply decrypt_master_of_encrypted.
+    - destruct G as [G|G]; [|discriminate]. subst chk. cbn in H.
+      destruct (is_locked st); inversion H; subst; clear H; cbn; repeat split; auto.
+  Qed.
+
+  (* ------------------------------------------------------------------------------------------ *)
+  (* once there is no plaintext key (in memory or in a record), none ever reappears *)
+  Definition db_no_plain (d : dbst) : Prop := no_plain (committed d) /\ forall p, pending d = Some p -> no_plain p.
+
+  Lemma db_write_no_plain d k v : db_no_plain d -> (forall id, k = KPlain id -> v = None) -> db_no_plain (db_write d k v).
+  Proof.
+    intros [A B] Hk. unfold db_write. destruct (pending d) as [p|] eqn:E; split; cbn [committed pending]; try exact A; try discriminate.
+    - intros q Eq. inversion Eq; subst. intros id. unfold db_set. destruct (rkey_eqb (KPlain id) k) eqn:X; [|apply B; reflexivity].
+      destruct k; cbn in X; try discriminate. apply (Hk d0). reflexivity.
+    - intros id. unfold db_set. destruct (rkey_eqb (KPlain id) k) eqn:X; [|apply A].
+      destruct k; cbn in X; try discriminate. apply (Hk d0). reflexivity.
+  Qed.
+
+  Lemma db_begin_no_plain d : db_no_plain d -> db_no_plain (db_begin d).
+  Proof. intros [A B]. split; cbn; [exact A|intros p E; inversion E; subst; exact A]. Qed.
+  Lemma db_commit_no_plain d : db_no_plain d -> db_no_plain (db_commit d).
+  Proof.
+    intros [A B]. unfold db_commit. destruct (pending d) as [p|] eqn:E; [|split; [exact A|intros q Eq; rewrite E in Eq; discriminate]].
+    split; cbn; [apply B; reflexivity|discriminate].
+  Qed.
+  Lemma db_abort_no_plain d : db_no_plain d -> db_no_plain (db_abort d).
+  Proof. intros [A B]. split; cbn; [exact A|discriminate]. Qed.
+
+  Definition mem_no_plain (l : list spkm) : Prop := forall s, In s l -> s_plain s = None.
+
+  Lemma spkm_encrypt_no_plain chk mk s d o s' d' o' :
+    db_no_plain d -> spkm_encrypt chk c mk s d o = Some (s', d', o') -> s_plain s' = None /\ db_no_plain d'.
+  Proof.
+    intros D H. unfold spkm_encrypt in H. destruct (s_crypt s); [discriminate|].
+    destruct (s_plain s) as [sec|] eqn:P; [|inversion H; subst; split; assumption].
+    destruct (pop o) as [w o1]. destruct w.
+    - destruct (pop o1) as [e o2]. destruct e; [|destruct chk; [discriminate|]]; inversion H; subst; split; try reflexivity.
+      + apply db_write_no_plain; [apply db_write_no_plain; [exact D|intros id E; discriminate]|intros id E; reflexivity].
+      + apply db_write_no_plain; [exact D|intros id E; discriminate].
+    - destruct chk; [discriminate|]. inversion H; subst. split; [reflexivity|exact D].
+  Qed.
+
+  Lemma encrypt_all_no_plain chk mk l : forall d o l' d' o',
+    db_no_plain d -> encrypt_all chk c mk l d o = Some (l', d', o') -> mem_no_plain l' /\ db_no_plain d'.
+  Proof.
+    induction l as [|s r IH]; intros d o l' d' o' D H; cbn [encrypt_all] in H.
+    - inversion H; subst. split; [intros s []|exact D].
+    - destruct (spkm_encrypt chk c mk s d o) as [[[s1 d1] o1]|] eqn:E; [|discriminate].
+      destruct (encrypt_all chk c mk r d1 o1) as [[[r1 d2] o2]|] eqn:R; [|discriminate]. inversion H; subst.
+      destruct (spkm_encrypt_no_plain _ _ _ _ _ _ _ _ D E) as [A D1]. destruct (IH _ _ _ _ _ D1 R) as [B D2].
+      split; [intros x [<-|Hin]; [exact A|apply B; exact Hin]|exact D2].
+  Qed.
+
+  Lemma setup_new_no_plain mk news : forall d l d',
+    db_no_plain d -> setup_new c mk news d = (l, d') -> mem_no_plain l /\ db_no_plain d'.
+  Proof.
+    induction news as [|[id sec] r IH]; intros d l d' D H; cbn [setup_new] in H.
+    - inversion H; subst. split; [intros s []|exact D].
+    - match type of H with context [setup_new c mk r ?dd] => destruct (setup_new c mk r dd) as [l0 d2] eqn:R; assert (DD : db_no_plain dd) end.
+      { apply db_write_no_plain; [apply db_write_no_plain; [apply db_write_no_plain; [exact D|intros i E; discriminate]|intros i E; reflexivity]|intros i E; discriminate]. }
+      inversion H; subst. destruct (IH _ _ _ DD R) as [A B]. split; [intros x [<-|Hin]; [reflexivity|apply A; exact Hin]|exact B].
+  Qed.
+
+  Definition st_no_plain (st : wst) : Prop := mem_no_plain (w_spk st) /\ db_no_plain (w_db st).
+
+  Lemma unlock_pass_same st pass st' b : unlock_pass c st pass = (st', b) -> w_spk st' = w_spk st /\ w_db st' = w_db st.
+  Proof.
+    destruct b; intros H; [|apply unlock_pass_fail in H; subst; split; reflexivity].
+    unfold unlock_pass in H. destruct (unlock_pass_loop c st pass (w_mk st)) as [st1|] eqn:L; [|discriminate]. inversion H; subst.
+    destruct (unlock_loop_sound _ _ _ _ L) as (_ & _ & mk & _ & _ & U). destruct (unlock_mk_sound _ _ _ U) as (_ & A & _ & B & _). split; assumption.
+  Qed.
+
+  Lemma encrypt_wallet_no_plain chk st pass mk salt news o st' r :
+    st_no_plain st -> encrypt_wallet chk c st pass mk salt news o = (st', r) -> st_no_plain st'.
+  Proof.
+    intros [M D] H. unfold encrypt_wallet in H.
+    destruct (encrypt_phase1 chk c st pass mk salt o) as [[st1 r1]|st2] eqn:P1.
+    - inversion H; subst; clear H. unfold encrypt_phase1 in P1.
+      destruct (has_enc st); [inversion P1; subst; split; assumption|].
+      destruct (pop o) as [b o1]. destruct b; cbn [negb] in P1; [|inversion P1; subst; split; assumption].
+      destruct (pop o1) as [wm o2]. destruct (negb wm && chk); [inversion P1; subst; split; [exact M|apply db_abort_no_plain, db_begin_no_plain; exact D]|].
+      match type of P1 with context [encrypt_all chk c mk (w_spk st) ?dd o2] => assert (DD : db_no_plain dd); [|destruct (encrypt_all chk c mk (w_spk st) dd o2) as [[[spk' d2] o3]|] eqn:E] end.
+      { destruct wm; [apply db_write_no_plain; [apply db_begin_no_plain; exact D|intros i X; discriminate]|apply db_begin_no_plain; exact D]. }
+      + destruct (encrypt_all_no_plain _ _ _ _ _ _ _ _ DD E) as [A B].
+        destruct (pop o3) as [cm o4]. destruct cm; cbn [negb] in P1; [discriminate|]. inversion P1; subst. split; cbn; [exact A|apply db_abort_no_plain; exact B].
+      + inversion P1; subst. split; cbn; [exact M|apply db_abort_no_plain; exact DD].
+    - assert (S2 : st_no_plain st2).
+      { unfold encrypt_phase1 in P1. destruct (has_enc st); [discriminate|]. destruct (pop o) as [b o1]. destruct b; cbn [negb] in P1; [|discriminate].
+        destruct (pop o1) as [wm o2]. destruct (negb wm && chk); [discriminate|].
+        match type of P1 with context [encrypt_all chk c mk (w_spk st) ?dd o2] => assert (DD : db_no_plain dd); [|destruct (encrypt_all chk c mk (w_spk st) dd o2) as [[[spk' d2] o3]|] eqn:E] end; [|  |discriminate].
+        { destruct wm; [apply db_write_no_plain; [apply db_begin_no_plain; exact D|intros i X; discriminate]|apply db_begin_no_plain; exact D]. }
+        destruct (encrypt_all_no_plain _ _ _ _ _ _ _ _ DD E) as [A B].
+        destruct (pop o3) as [cm o4]. destruct cm; cbn [negb] in P1; [|discriminate]. inversion P1; subst. split; cbn; [exact A|apply db_commit_no_plain; exact B]. }
+      unfold encrypt_phase2 in H. destruct (unlock_pass c st2 pass) as [st3 b] eqn:U. destruct (unlock_pass_same _ _ _ _ U) as [E1 E2].
+      destruct b; [|inversion H; subst; exact S2].
+      destruct (setup_new c mk news (db_begin (w_db st3))) as [newl d3] eqn:SN. inversion H; subst; clear H.
+      destruct S2 as [M2 D2]. rewrite E2 in SN.
+      destruct (setup_new_no_plain _ _ _ _ _ (db_begin_no_plain _ D2) SN) as [A B].
+      split; cbn; [|apply db_commit_no_plain; exact B].
+      intros s Hin. apply in_app_or in Hin. destruct Hin as [Hin|Hin]; [apply M2; rewrite <- E1; exact Hin|apply A; exact Hin].
+  Qed.
+
+  Lemma chpass_loop_no_plain chk was old new l : forall st o st' b,
+    st_no_plain st -> chpass_loop chk c st was old new l o = (st', b) -> st_no_plain st'.
+  Proof.
+    induction l as [|[id rec] r IH]; intros st o st' b S H; cbn [chpass_loop] in H; [inversion H; subst; exact S|].
+    destruct (decrypt_master c old rec) as [mk|]; [|inversion H; subst; exact S].
+    destruct (unlock_mk c st mk) as [st1|] eqn:U; [|eapply IH; eassumption].
+    destruct (unlock_mk_sound _ _ _ U) as (_ & A & _ & B & _).
+    assert (S1 : st_no_plain st1) by (destruct S as [M D]; split; [rewrite A; exact M|rewrite B; exact D]).
+    destruct (pop o) as [w o1]. destruct (negb w && chk).
+    - destruct was; inversion H; subst; [|exact S1]. unfold lock. destruct (has_enc st1); cbn; [|exact S1]. destruct S1; split; assumption.
+    - inversion H; subst. destruct S1 as [M1 D1]. split; cbn; [exact M1|].
+      destruct w; [apply db_write_no_plain; [exact D1|intros i X; discriminate]|exact D1].
+  Qed.
+
+  Lemma load_spkms_no_plain d ids : forall l, no_plain d -> load_spkms d ids = Some l -> mem_no_plain l.
+  Proof.
+    induction ids as [|id r IH]; intros l N H; cbn [load_spkms] in H; [inversion H; subst; intros s []|].
+    destruct (load_spkm d id) as [[s|]|] eqn:L; [| |discriminate]; destruct (load_spkms d r) as [l0|] eqn:R; try discriminate; inversion H; subst.
+    - intros x [<-|Hin]; [|eapply IH; [exact N|reflexivity|exact Hin]].
+      unfold load_spkm in L. destruct (d (KDescRec id)) as [[pub| | |]|]; try discriminate. rewrite (N id) in L.
+      destruct (d (KCrypt id)) as [[| |ct|]|]; inversion L; reflexivity.
+    - eapply IH; [exact N|reflexivity].
+  Qed.
+
+  Lemma step_no_plain chk st o st' x : st_no_plain st -> step chk c st o = (st', x) -> st_no_plain st'.
+  Proof.
+    intros S H. unfold step in H. destruct (w_dead st); [inversion H; subst; exact S|]. destruct o.
+    - destruct (encrypt_wallet chk c st pass mk salt news bits) as [st1 r] eqn:E.
+      pose proof (encrypt_wallet_no_plain _ _ _ _ _ _ _ _ _ S E) as S1. destruct r; inversion H; subst; exact S1.
+    - unfold lock in H. destruct (has_enc st); inversion H; subst; [destruct S; split; assumption|exact S].
+    - destruct (unlock_pass c st pass) as [st1 b] eqn:U. inversion H; subst. destruct (unlock_pass_same _ _ _ _ U) as [A B].
+      destruct S as [M D]. split; [rewrite A; exact M|rewrite B; exact D].
+    - destruct (change_passphrase chk c st old new bits) as [st1 b] eqn:C. inversion H; subst. unfold change_passphrase in C.
+      eapply chpass_loop_no_plain; [|exact C]. unfold lock. destruct (has_enc st); cbn; [destruct S; split; assumption|exact S].
+    - inversion H; subst; clear H. unfold reload. destruct S as [M [D _]].
+      destruct (load_spkms (committed (w_db st)) ids) as [l|] eqn:L; split; cbn; try (intros s []); try (split; cbn; [exact D|discriminate]).
+      eapply load_spkms_no_plain; eassumption.
+  Qed.
+
+  Lemma run_no_plain chk ops : forall st xs st', st_no_plain st -> run chk c st ops = (xs, st') -> st_no_plain st'.
+  Proof.
+    induction ops as [|o r IH]; intros st xs st' S H; cbn [run] in H; [inversion H; subst; exact S|].
+    destruct (step chk c st o) as [st1 x] eqn:E. destruct (run chk c st1 r) as [ys st2] eqn:R. inversion H; subst.
+    eapply IH; [eapply step_no_plain; eassumption|exact R].
   Qed.
 End Cipher.
+
+(* ---------------------------------------------------------------------------------------------- *)
+(* Part 1: the real cipher (AES-256-CBC with PKCS#7 padding, as modelled and proved by the Crypto family) satisfies
+   the round-trip premise on the values the wallet uses: a 32-byte key, a 16-byte IV, a non-empty plaintext *)
+Lemma crypter_round_trip key iv pt ct :
+  length key = 32 -> bytes_ok key -> length iv = 16 -> bytes_ok iv -> bytes_ok pt -> pt <> [] ->
+  crypter_encrypt key iv pt = Some ct -> crypter_decrypt key iv ct = Some pt.
+Proof.
+  intros Hk Bk Hi Bi Bp Hne H. unfold crypter_encrypt in H. rewrite Hk, Hi in H. cbn [Nat.eqb negb orb] in H.
+  change (Nat.eqb 32 32) with true in H. change (Nat.eqb 16 16) with true in H. cbn [negb orb] in H.
+  destruct (Nat.ltb (length (cbc_encrypt key iv pt true)) (length pt)); [discriminate|]. inversion H; subst; clear H.
+  unfold crypter_decrypt. rewrite Hk, Hi. change (Nat.eqb 32 32) with true. change (Nat.eqb 16 16) with true. cbn [negb orb].
+  rewrite (cbc_roundtrip key iv Hk Bk Hi Bi pt Bp).
+  destruct pt as [|x r]; [contradiction|]. reflexivity.
+Qed.
+
+Lemma in_firstn {A} (n : nat) : forall (l : list A) x, In x (firstn n l) -> In x l.
+Proof. induction n as [|n IH]; intros [|a l] x H; cbn in H; try contradiction. destruct H as [->|H]; [left; reflexivity|right; apply IH; exact H]. Qed.
+
+Lemma secret_round_trip mk secret iv32 ct :
+  length mk = 32 -> bytes_ok mk -> length iv32 = 32 -> bytes_ok iv32 -> bytes_ok secret -> secret <> [] ->
+  encrypt_secret mk secret iv32 = Some ct -> decrypt_secret mk ct iv32 = Some secret.
+Proof.
+  intros Hk Bk Hi Bi Bs Hne H. unfold encrypt_secret, decrypt_secret in *.
+  apply crypter_round_trip; auto.
+  - rewrite firstn_length, Hi. reflexivity.
+  - unfold bytes_ok in *. apply Forall_forall. intros x Hx. rewrite Forall_forall in Bi. apply Bi. eapply in_firstn; exact Hx.
+Qed.
